@@ -145,3 +145,10 @@ func init() {
 		run:     runC18,
 	})
 }
+
+func constantInt64(v constant.Value) (int64, bool) {
+	if v == nil || v.Kind() != constant.Int {
+		return 0, false
+	}
+	return constant.Int64Val(v)
+}
